@@ -27,7 +27,9 @@ RULE = ("random program (gen.build / gen.build_mtl as in C01 / C02) x linear agg
         "zero rows of the Jacobian next to non-zero ones) x chunk size x pre-existing .grad x dtype; oracle = "
         "torch.autograd on a twin graph, never the aggregator. distinct = (program trace, aggregator, weights, "
         "chunk, inputs); non-trivial = >=2 rows with non-zero weight whose Jacobian rows are non-zero and "
-        "different, i.e. the weights matter")
+        "different, i.e. the weights matter.  Plus a directed family 'bigrows': outputs <a_i, x> with rows of one sign at "
+        "0.45..0.9 of the maximum of float32 / float16 / bfloat16 (Mean, Constant with |w|_1 < 1): the weighted combination "
+        "is representable, the plain column sum is not")
 BOUNDS = "programs as in C01 / C02: <=5 leaves, <=9 ops, <=3 outputs; <=3 shared, <=3 features, <=4 tasks"
 EXHAUSTIVE = ""
 
@@ -63,9 +65,64 @@ def cases(tier, seed, focus=None):
         if i % 4 == 2:  # dead outputs / losses: exactly zero rows of the Jacobian next to non-zero ones
             case["dead"] = [r2.randrange(6) for _ in range(r2.choice([1, 1, 2]))]
         yield case
+    # ---- Jacobians whose entries are near the top of the dtype's range: every row, and every weighted combination with
+    # |w|_1 <= 1, is representable, but the plain SUM of a column is not (half precision without loss scaling, ...)
+    rng3 = random.Random(5050500 + seed)
+    for i in range(24 if tier == "quick" else 600):
+        yield {"fn": "bigrows", "seed": rng3.randrange(10**9), "m": rng3.randint(2, 4), "k": rng3.randint(1, 4),
+               "dtype": rng3.choice(["float32", "float32", "float16", "bfloat16"]), "agg": rng3.choice(["Mean", "Mean", "Constant"]),
+               "chunk": rng3.choice([None, 1, 2]), "via": rng3.choice(["direct", "chain"])}
 
 
 ONE_SHOT = ["iter", "gen"]
+
+
+def _run_bigrows(case):
+    """Outputs y_i = <a_i, h(x)> with all a_i of one sign per coordinate and of magnitude 0.45..0.9 of the dtype's maximum, h the
+    identity or x -> 1.0 * x + 0.0: .grad must be what torch.autograd.backward(ys, grad_tensors=w) leaves (w = 1/m, or positive
+    weights summing to at most 1): finite, although the unweighted column sums are not representable."""
+    import torchjd.aggregation as A
+    from torchjd import backward
+
+    dtype = getattr(torch, case["dtype"])
+    m, k = case["m"], case["k"]
+    sig = f"bigrows|{sorted(case.items())}"
+    g = torch.Generator().manual_seed(case["seed"])
+    top = torch.finfo(dtype).max
+    sign = (torch.randint(0, 2, (k,), generator=g) * 2 - 1).to(torch.float64)
+    a = ((0.45 + 0.45 * torch.rand(m, k, generator=g, dtype=torch.float64)) * top * sign).to(dtype)
+    if case["agg"] == "Mean":
+        w = torch.full((m,), 1.0 / m, dtype=dtype)
+    else:
+        w = torch.rand(m, generator=g, dtype=torch.float64) + 0.1
+        w = (w / w.sum() * 0.98).to(dtype)
+    res = []
+    for real in (True, False):
+        x = torch.zeros(k, dtype=dtype, requires_grad=True)
+        h = x if case["via"] == "direct" else x * 1.0 + 0.0
+        try:
+            ys = [(a[i] * h).sum() for i in range(m)]
+            if real:
+                backward(ys, A.Mean() if case["agg"] == "Mean" else A.Constant(w.clone()), inputs=[x], parallel_chunk_size=case["chunk"])
+            else:
+                torch.autograd.backward(ys, grad_tensors=[w[i] for i in range(m)], inputs=[x])
+        except (RuntimeError, NotImplementedError) as e:
+            if not real or "not implemented for" in str(e):  # the dtype lacks a CPU kernel: nothing is claimed for this case
+                return {"ok": True, "sig": sig, "nontrivial": False, "note": f"unsupported dtype: {str(e)[:80]}"}
+            return {"ok": False, "sig": sig, "nontrivial": True, "key": "C05.mean" if case["agg"] == "Mean" else "C05.constant",
+                    "what": "valid call raised", "observed": f"{type(e).__name__}: {str(e)[:160]}", "expected": "success"}
+        res.append(x.grad)
+    g1, g2 = res
+    if g2 is None or not bool(g2.isfinite().all()):  # the oracle itself left the range: outside this family
+        return {"ok": True, "sig": sig, "nontrivial": False, "note": "oracle not finite"}
+    eps = torch.finfo(dtype).eps
+    ok = g1 is not None and bool(g1.isfinite().all()) and gen.close(g1.double(), g2.double(), 64.0 * m * eps, 0.0)
+    if ok:
+        return {"ok": True, "sig": sig, "nontrivial": True}
+    return {"ok": False, "sig": sig, "nontrivial": True, "key": "C05.mean" if case["agg"] == "Mean" else "C05.constant",
+            "what": "rows near the top of the dtype's range: .grad differs from what torch.autograd.backward(ys, grad_tensors=w) leaves "
+                    "(a finite weighted combination; the unweighted column sum is not representable)",
+            "observed": None if g1 is None else g1.tolist(), "expected": g2.tolist(), "weights": w.tolist(), "rows": a.tolist()}
 
 
 def _kill(tensors: list, dead) -> None:
@@ -112,6 +169,8 @@ def run_case(case):
     from torchjd import backward, mtl_backward
 
     fn = case["fn"]
+    if fn == "bigrows":
+        return _run_bigrows(case)
     if fn == "backward":
         p1, p2 = gen.build(case["prog"]), gen.build(case["prog"])
         _kill(p1.outputs, case.get("dead"))
